@@ -10,8 +10,9 @@ import struct as _struct
 import types
 import z3
 
-from .core import (SymInt, SymBool, Unsupported, cur, mk_bool, bv, is_sym, Ite, And, Or, Not,
-                   as_symint, W, MARK)
+from .core import (SymQuot, SymInt, SymBool, Unsupported, cur, mk_bool, bv, is_sym, Ite, And, Or, Not,
+                   as_symint, MARK)
+from . import core as _core
 from .sbytes import SymBytes, SymByteArray, SymBytesIO, elems_of, _out, _eqelem
 
 
@@ -64,7 +65,19 @@ def fmt_symint(v, spec):
         return MARK
 
 
-PROXY = (SymInt, SymBool, SymBytes, SymBytesIO, SymStr)
+def _m_s_isdir(m):
+    return (m & 0o170000) == 0o040000
+
+
+def _m_s_isreg(m):
+    return (m & 0o170000) == 0o100000
+
+
+def _m_s_islnk(m):
+    return (m & 0o170000) == 0o120000
+
+
+PROXY = (SymQuot, SymInt, SymBool, SymBytes, SymBytesIO, SymStr)
 
 
 def has_sym(x, depth=3):
@@ -98,6 +111,8 @@ def m_int(x=0, base=None):
         return x
     if isinstance(x, SymBool):
         return as_symint(x)
+    if isinstance(x, SymQuot):
+        return x.trunc()
     if isinstance(x, SymBytes):
         return parse_int(x.elems, 10 if base is None else base)
     if isinstance(x, SymStr):
@@ -120,6 +135,15 @@ def _digit_val(e, base):
     upp = And(e >= 65, e <= 90)
     val = Ite(dig, e - 48, Ite(low, e - 87, Ite(upp, e - 55, 99)))
     return val < base, val
+
+
+def _powsum(vals, base):
+    """sum of digit * base^position, least significant first -- the same term shape the decimal
+    formatter asserts for its fresh digits, so that parse(format(v)) == v is decided by rewriting"""
+    tot = 0
+    for i, d in enumerate(reversed(vals)):
+        tot = tot + d * (base ** i)
+    return tot
 
 
 def parse_int(elems, base):
@@ -149,10 +173,7 @@ def parse_int(elems, base):
                 conds.append(c)
                 vals.append(v)
         if ok and And(*conds):
-            acc = 0
-            for v in vals:
-                acc = acc * base + v
-            return acc
+            return _powsum(vals, base)
     # slow path: character-by-character, like the C parser
     i = 0
     ws = (9, 10, 11, 12, 13, 32)
@@ -180,7 +201,7 @@ def parse_int(elems, base):
         body = body2
     if not body:
         raise ValueError("invalid literal for int()")
-    acc = 0
+    digs = []
     prev_us = True  # leading underscore not allowed
     for k, e in enumerate(body):
         if _eqelem(e, 95):
@@ -194,11 +215,12 @@ def parse_int(elems, base):
                 raise ValueError("invalid literal for int()")
         elif not ok:
             raise ValueError("invalid literal for int()")
-        acc = acc * base + v
+        digs.append(v)
         prev_us = False
     if prev_us:
         raise ValueError("invalid literal for int()")
-    return acc * sign if sign == -1 else acc
+    acc = _powsum(digs, base)
+    return -acc if sign == -1 else acc
 
 
 def m_bytes(*args, **kw):
@@ -283,7 +305,10 @@ def m_len(x):
 
 def m_str(*a, **k):
     if a and isinstance(a[0], (SymInt, SymBool)) and len(a) == 1:
-        return str(cur().concretize(a[0]))
+        v = as_symint(a[0])
+        if v < 0:
+            return SymText([45] + _fmt_int(-v, "d", "", 0))
+        return SymText(_fmt_int(v, "d", "", 0))
     if a and isinstance(a[0], SymBytes):
         if len(a) == 1:
             return repr(a[0])
@@ -544,6 +569,12 @@ MODELS = {
     int.from_bytes: m_int_from_bytes,
     memoryview: lambda x: x if isinstance(x, SymBytes) else memoryview(x),
 }
+import stat as _stat_mod
+MODELS[_stat_mod.S_ISDIR] = _m_s_isdir
+MODELS[_stat_mod.S_ISREG] = _m_s_isreg
+MODELS[_stat_mod.S_ISLNK] = _m_s_islnk
+MODELS[_stat_mod.S_IFMT] = lambda m: m & 0o170000
+MODELS[_stat_mod.S_IMODE] = lambda m: m & 0o7777
 # models that must be used even when no argument is symbolic (identity-bearing objects)
 ALWAYS = {bytearray, io.BytesIO}
 
@@ -665,12 +696,23 @@ def ks_in(a, b):
 
 def _fmt_int(v, conv, flags, width):
     """b'%04x' style rendering of a possibly symbolic int -> element list"""
+    if isinstance(v, SymQuot):
+        v = v.trunc()
     if not isinstance(v, (SymInt, SymBool)):
         spec = "%" + flags + (str(width) if width else "") + conv
         return list((spec % v).encode("ascii"))
     v = as_symint(v)
     base = {"x": 16, "X": 16, "o": 8, "d": 10, "i": 10, "u": 10}[conv]
     if v < 0:
+        if conv in "di" and "-" not in flags:
+            inner = _fmt_int(-v, conv, "", 0)
+            body = [45] + inner
+            if width and len(body) < width:
+                if "0" in flags:
+                    body = [45] + [48] * (width - len(body)) + inner
+                else:
+                    body = [32] * (width - len(body)) + body
+            return body
         raise Unsupported("formatting a negative symbolic int")
     # number of digits: fork on magnitude (at most ~40 cases)
     nd = 1
@@ -681,15 +723,30 @@ def _fmt_int(v, conv, flags, width):
         if nd > 40:
             raise Unsupported("too many digits")
     digs = []
-    x = v
-    for _ in range(nd):
-        d = x % base
-        x = x // base
-        if base == 16:
-            a = 87 if conv == "x" else 55
-            digs.append(Ite(d < 10, d + 48, d + a))
-        else:
+    if base == 10:
+        # definitional extension instead of division by 10 (which stalls bit-blasting): fresh digit
+        # variables d_i in [0,9] with v == sum d_i*10^i.  For a v with exactly nd digits this vector
+        # exists and is unique, so adding the equation to the path condition changes no verdict.
+        eng = cur()
+        eng._fresh = getattr(eng, "_fresh", 0) + 1
+        tot = 0
+        for i in range(nd):
+            dv = z3.BitVec(f"_dig{eng._fresh}_{i}", _core.W)
+            eng.solver.add(z3.ULE(dv, 9))
+            d = SymInt(dv, 0, 9)
+            tot = tot + d * (10 ** i)
             digs.append(d + 48)
+        eng.solver.add(bv(tot) == bv(v))
+    else:
+        x = v
+        for _ in range(nd):
+            d = x % base
+            x = x // base
+            if base == 16:
+                a = 87 if conv == "x" else 55
+                digs.append(Ite(d < 10, d + 48, d + a))
+            else:
+                digs.append(d + 48)
     digs.reverse()
     if width and len(digs) < width:
         pad = 48 if "0" in flags else 32
@@ -740,13 +797,15 @@ def ks_mod(l, r):
                 if width:
                     raise Unsupported("%s with width")
                 out += e
-            elif conv == "c" and isb:
-                out.append(a if isinstance(a, (int, SymInt)) else elems_of(a)[0])
+            elif conv == "c":
+                out.append(a if isinstance(a, (int, SymInt)) else (ord(a) if isinstance(a, str) else elems_of(a)[0]))
             elif not isb:
-                out += [ord(c) for c in MARK]
+                out += [MARK]
             else:
                 raise Unsupported(f"format %{conv}")
         if not isb:
+            if all(isinstance(c, (int, SymInt)) for c in out):
+                return SymText(out)
             return "".join(chr(c) if isinstance(c, int) else MARK for c in out)
         return _out(out)
     return l % r
